@@ -129,6 +129,7 @@ def helper_kind(repo: Repo, name: str, depth: int = 0) -> Dict[str, Any]:
     out: Dict[str, Any] = {"sel": None, "key": None, "tree": False, "chain": [name]}
     if f is None or depth > 3:
         return out
+    on_by_cmp = False
     for n in walk_no_nested(f.node):
         if isinstance(n, ast.Name):
             if n.id == "_address_interval":
@@ -144,6 +145,9 @@ def helper_kind(repo: Repo, name: str, depth: int = 0) -> Dict[str, Any]:
             out["sel"] = out["sel"] or "on"
         if isinstance(n, ast.Attribute) and n.attr in ("end", "length"):
             out["sel"] = out["sel"] or "on"
+        if isinstance(n, ast.Compare) and any(isinstance(o, (ast.Lt, ast.LtE, ast.Gt, ast.GtE)) for o in n.ops) \
+                and "desired_range" in unparse(n) and not any(isinstance(o, ast.In) for o in n.ops):
+            on_by_cmp = True
         if isinstance(n, ast.Call):
             p = attr_path(n.func)
             if p and len(p) == 1 and p[0] != name and p[0] in repo.module("util").functions \
@@ -154,6 +158,8 @@ def helper_kind(repo: Repo, name: str, depth: int = 0) -> Dict[str, Any]:
                 out["chain"] += sub["chain"]
                 if out["key"] is None:
                     out["key"] = sub["key"]
+    if out["sel"] is None and on_by_cmp:
+        out["sel"] = "on"
     return out
 
 
@@ -303,6 +309,7 @@ def notify_protocol(chk: Check, rule: str = "R05.2") -> None:
     ok = dl is not None and any(isinstance(n, ast.Raise) for n in walk_no_nested(dl.node))
     chk.ob(rule, "_IndexedAttribute.Descriptor.__delete__:raises", ok, d.loc(),
            "deleting an indexed attribute must raise (the index would keep a dangling key)", 1)
+    truthiness_safe(chk, rule)
     sn = d.methods.get("__set_name__")
     g = d.methods.get("__get__")
     ok = sn is not None and g is not None
@@ -378,6 +385,10 @@ def tree_lookup(chk: Check, f: FuncInfo, site: TreeSite, sel: str, key: str, adj
     guards: Tuple = ()
     if t[0] == "guard":
         guards, t = t[1], t[2]
+    if t[0] == "call" and t[1][0] == "attr" and t[1][1] == ("self",) and t[1][2].endswith("_offset") \
+            and adjusted and len(t[2]) == 1:
+        _pure_shift(chk, f, t, guards, rule)
+        return
     if not (t[0] == "call" and t[1][0] == "name"):
         chk.ob(rule, k + ":index-lookup", True, f.loc(), "not a helper call: %s" % show(t), 0)
         return
@@ -523,3 +534,104 @@ def bias_consumers(chk: Check, rule: str, modules: List[str]) -> None:
                        "%s uses .%s of a closed-interval encoding without subtracting the +1 bias "
                        "(%s)" % (f.qualname, what, unparse(par)[:40] if par is not None else "?"), 2)
     chk.floor(rule, "consumers of biased interval ends", n, 3)
+
+
+def truthiness_safe(chk: Check, rule: str) -> None:
+    """The package tests model objects by truthiness (``if parent:``, ``if node.referent:``,
+    ``if not self.module:``, ``if not element:``).  No class of the Node hierarchy may
+    therefore define __bool__ or __len__: an instance that becomes falsy (size 0, empty)
+    silently skips index maintenance / lookups."""
+    repo = chk.repo
+    node = repo.cls("Node")
+    n = 0
+    for c in [node] + repo.subclasses(node):
+        for nm in ("__bool__", "__len__"):
+            n += 1
+            chk.ob(rule, "%s.%s:absent" % (c.qualname, nm), nm not in c.methods and nm not in c.class_assigns,
+                   c.loc(c.methods[nm].node) if nm in c.methods else c.loc(),
+                   "%s defines %s: instances can be falsy, and the package decides 'has a parent / has "
+                   "a referent / was found' by truthiness (notify-parent descriptor, symbol index, "
+                   "Block.references, Offset decoding)" % (c.qualname, nm), 1)
+    chk.extra["truthiness_tested_classes"] = n
+
+
+def _term_lin(t: tuple) -> Optional[Tuple[Dict[str, int], int]]:
+    k = t[0]
+    if k == "const" and isinstance(t[1], int):
+        return {}, t[1]
+    if k in ("attr", "param", "name", "var"):
+        return {show(t): 1}, 0
+    if k == "call" and t[1] == ("name", "get_desired_range") and len(t[2]) == 1:
+        return _term_lin(t[2][0])
+    if k == "neg":
+        a = _term_lin(t[1])
+        return None if a is None else ({x: -v for x, v in a[0].items()}, -a[1])
+    if k == "binop" and t[1] in ("Add", "Sub"):
+        a, b = _term_lin(t[2]), _term_lin(t[3])
+        if a is None or b is None:
+            return None
+        s = 1 if t[1] == "Add" else -1
+        d = dict(a[0])
+        for x, v in b[0].items():
+            d[x] = d.get(x, 0) + s * v
+        return {x: v for x, v in d.items() if v}, a[1] + s * b[1]
+    return None
+
+
+def _norm_range_attr(t: tuple) -> tuple:
+    """get_desired_range(addrs).start -> addrs.start"""
+    if t[0] == "attr" and t[1][0] == "call" and t[1][1] == ("name", "get_desired_range"):
+        return ("attr", t[1][2][0], t[2])
+    if isinstance(t, tuple):
+        return tuple(_norm_range_attr(x) if isinstance(x, tuple) else x for x in t)
+    return t
+
+
+def _pure_shift(chk: Check, f: FuncInfo, t: tuple, guards: Tuple, rule: str) -> None:
+    """self.<lookup>_offset(ARG): ARG must be the query shifted by -self.address, nothing else"""
+    k = f.qualname
+    sib = t[1][2]
+    want_sib = f.name + "_offset"
+    chk.ob(rule, k + ":delegates-to-own-offset-variant", sib == want_sib, f.loc(),
+           "%s delegates to %s; the offset variant of the same lookup is %s" % (k, sib, want_sib), 2)
+    arg = t[2][0]
+    # resolve a helper method of the same class
+    param = f.param_names()[1]
+    if arg[0] == "call" and arg[1][0] == "attr" and arg[1][1] == ("self",) and f.cls is not None:
+        h = f.cls.find_method(arg[1][2])
+        if h is not None and len(arg[2]) == 1 and arg[2][0] == ("param", param):
+            chk.saw(h)
+            try:
+                ht = function_term(h)
+                if ht[0] == "guard":
+                    ht = ht[2]
+                # rename the helper's parameter to ours
+                hp = h.param_names()[1]
+
+                def ren(x):
+                    if x == ("param", hp):
+                        return ("param", param)
+                    if isinstance(x, tuple):
+                        return tuple(ren(y) for y in x)
+                    return x
+                arg = ren(ht)
+            except OutsideFragment:
+                pass
+    arg = _norm_range_attr(arg)
+    ok = False
+    why = show(arg)
+    if arg[0] == "call" and arg[1] == ("name", "range") and len(arg[2]) in (2, 3):
+        lo, hi = _term_lin(arg[2][0]), _term_lin(arg[2][1])
+        step_ok = len(arg[2]) == 2 or arg[2][2] == ("attr", ("param", param), "step")
+        ok = lo == ({"%s.start" % param: 1, "self.address": -1}, 0) and \
+            hi == ({"%s.stop" % param: 1, "self.address": -1}, 0) and step_ok and len(arg[2]) == 3
+        if lo is None or hi is None:
+            why = "a bound is not a linear shift (clamped or otherwise transformed): " + show(arg)
+    chk.ob(rule, k + ":query-translated-by-pure-shift", ok, f.loc(),
+           "%s answers an address query through the offset lookup; the query must be translated to "
+           "range(start - address, stop - address, step) and nothing else (a clamp changes which "
+           "members a stepped range has): %s" % (k, why), 3)
+    g_ok = any(c == ("cmp", "Is", ("attr", ("self",), "address"), ("none",)) and v == ("empty",)
+               for c, v in guards)
+    chk.ob(rule, k + ":no-address-guard", g_ok, f.loc(),
+           "%s must return nothing when self.address is None" % k, 2)
